@@ -81,7 +81,7 @@ AUDITED_STATEFUL = {
 PER_OBJECT_SCOPES = {"__init__", "__post_init__", "__new__", "__init_subclass__"}
 CACHING_DECORATORS = {"cached_property", "lru_cache", "cache", "method_cache"}
 
-DRAW_METHODS = {"random", "randint", "randrange", "choice", "choices", "shuffle", "sample", "uniform", "gauss",
+DRAW_METHODS = {"random", "randint", "seed", "setstate", "getstate", "jumpahead", "randrange", "choice", "choices", "shuffle", "sample", "uniform", "gauss",
                 "normalvariate", "lognormvariate", "expovariate", "betavariate", "gammavariate", "triangular",
                 "vonmisesvariate", "paretovariate", "weibullvariate", "getrandbits", "randbytes", "integers",
                 "normal", "standard_normal", "permutation", "permuted", "bytes", "binomial", "poisson",
@@ -358,7 +358,55 @@ class FileScan:
                 kind = "KGlobalIfSeedFalsy"
             elif "seed_none" in g:
                 kind = "KGlobalIfSeedNone"
-        self.sites.append({"scope": self.scope(node), "line": node.lineno, "kind": kind, "what": what or src(node)})
+        self.sites.append({"scope": self.scope(node), "line": node.lineno, "kind": kind, "what": what or src(node),
+                           "_defs": self.enclosing_defs(node)})
+
+    def enclosing_defs(self, node):
+        out, f = [], self.func_of(node)
+        while f is not None:
+            if not isinstance(f, ast.Lambda):
+                out.append(f)
+            f = self.func_of(f)
+        return out
+
+    # ---- helper functions / methods of the same module --------------------------------------------
+    def module_defs(self):
+        if not hasattr(self, "_module_defs"):
+            self._module_defs = {}
+            for x in ast.walk(self.tree):
+                if isinstance(x, (ast.FunctionDef, ast.AsyncFunctionDef)):
+                    self._module_defs.setdefault(x.name, []).append(x)
+        return self._module_defs
+
+    def resolve_helper(self, call):
+        """the def(s) of THIS module a call can only refer to: a plain name  f(..), or  self.f(..) / cls.f(..) /
+        <ClassOfThisModule>.f(..).  Calls on any other receiver stay unresolved."""
+        f = call.func
+        defs = self.module_defs()
+        if isinstance(f, ast.Name):
+            return defs.get(f.id, [])
+        if isinstance(f, ast.Attribute) and isinstance(f.value, ast.Name):
+            classes = {x.name for x in ast.walk(self.tree) if isinstance(x, ast.ClassDef)}
+            if f.value.id in ("self", "cls") or f.value.id in classes:
+                return [d for d in defs.get(f.attr, []) if isinstance(self.parents.get(d), ast.ClassDef)]
+        return []
+
+    SEVERITY = ["KPrivate", "KParamDefaultGlobal", "KGlobalIfSeedNone", "KAuditedOrderFree", "KHashOrder", "KHash",
+                "KHashDerivedSeed", "KUnseeded", "KPersistentAcrossCalls", "KShufflesCallerObject", "KGlobalIfSeedFalsy", "KGlobal"]
+
+    def helper_kinds(self, d, depth=2, seen=None):
+        """kinds of the sites inside helper d and inside the module helpers it calls (depth levels down)"""
+        seen = seen if seen is not None else set()
+        if d in seen:
+            return set()
+        seen.add(d)
+        kinds = {s["kind"] for s in self.sites if d in s.get("_defs", [])}
+        if depth > 0:
+            for x in ast.walk(d):
+                if isinstance(x, ast.Call):
+                    for d2 in self.resolve_helper(x):
+                        kinds |= self.helper_kinds(d2, depth - 1, seen)
+        return kinds
 
     def seed_kind_of_construction(self, call):
         args = list(call.args) + [k.value for k in call.keywords]
@@ -369,6 +417,8 @@ class FileScan:
             return "KPrivate"
         if seedlike(a):
             return "KPrivate"
+        if any(isinstance(x, ast.Call) and (dotted(x.func) or "").split(".")[-1] in ("obj_seed", "hash") for x in ast.walk(a)):
+            return "KHashDerivedSeed"            # seeded from a (salted) object hash
         raise Unclassified("%s:%d: generator constructed from `%s`: seed expression not recognised" % (self.rel, call.lineno, src(a)))
 
     def persistent_scope(self, node):
@@ -531,10 +581,39 @@ class FileScan:
                 return True
         if isinstance(e, ast.BinOp) and isinstance(e.op, ast.Add):
             return self.is_fresh_expr(e.left) or self.is_fresh_expr(e.right)
+        if isinstance(e, ast.IfExp):
+            return self.is_fresh_expr(e.body) and self.is_fresh_expr(e.orelse)
         return False
 
-    def is_fresh_list(self, arg, at):
-        """the shuffled object is a local name whose governing assignment(s) build a new list"""
+    def param_fresh_at_call_sites(self, f, name, depth):
+        """parameter `name` of module helper f: fresh iff f is called in this module and EVERY call site passes a fresh list"""
+        if depth <= 0 or isinstance(f, ast.Lambda):
+            return False
+        pos = [a.arg for a in f.args.posonlyargs + f.args.args]
+        is_method = isinstance(self.parents.get(f), ast.ClassDef) and pos[:1] in (["self"], ["cls"])
+        calls = [c for c in ast.walk(self.tree) if isinstance(c, ast.Call) and f in self.resolve_helper(c)]
+        # a helper that is returned / stored / passed around (a closure) can be called from anywhere: not resolvable
+        escapes = any(isinstance(x, ast.Name) and x.id == f.name and isinstance(x.ctx, ast.Load)
+                      and not (isinstance(self.parents.get(x), ast.Call) and self.parents[x].func is x)
+                      for x in ast.walk(self.tree))
+        if not calls or escapes:
+            return False
+        for c in calls:
+            bound = None
+            for k in c.keywords:
+                if k.arg == name:
+                    bound = k.value
+            if bound is None and name in pos:
+                i = pos.index(name) - (1 if is_method and isinstance(c.func, ast.Attribute) and dotted(c.func.value) in ("self", "cls") else 0)
+                if 0 <= i < len(c.args) and not any(isinstance(a, ast.Starred) for a in c.args[:i + 1]):
+                    bound = c.args[i]
+            if bound is None or not self.is_fresh_list(bound, c, depth - 1):
+                return False
+        return True
+
+    def is_fresh_list(self, arg, at, depth=2):
+        """the shuffled object is a local name whose governing assignment(s) build a new list, or a parameter of a module
+        helper all of whose call sites pass a new list"""
         if self.is_fresh_expr(arg):
             return True
         if not isinstance(arg, ast.Name):
@@ -553,8 +632,7 @@ class FileScan:
                         return self.is_fresh_expr(prev.value)
                     if any(isinstance(x, ast.Name) and x.id == arg.id and isinstance(x.ctx, ast.Store) for x in ast.walk(prev)):
                         return False
-        if arg.id in {a.arg for a in f.args.posonlyargs + f.args.args + f.args.kwonlyargs}:
-            return False
+        params = {a.arg for a in f.args.posonlyargs + f.args.args + f.args.kwonlyargs}
         values = []
         for x in ast.walk(f):
             if isinstance(x, ast.Assign) and any(isinstance(t, ast.Name) and t.id == arg.id for t in x.targets):
@@ -563,6 +641,8 @@ class FileScan:
                 values.append(x.value)
             elif isinstance(x, (ast.For, ast.comprehension)) and any(isinstance(t, ast.Name) and t.id == arg.id for t in ast.walk(x.target)):
                 return False
+        if arg.id in params:
+            return not values and self.param_fresh_at_call_sites(f, arg.id, depth)
         return bool(values) and all(v is not None and self.is_fresh_expr(v) for v in values)
 
     def check_rng_keyword(self, n, param):
@@ -630,6 +710,19 @@ class FileScan:
                 continue
             if any(s["line"] == n.lineno for s in self.sites):
                 continue
+            helpers = self.resolve_helper(n)
+            if helpers:
+                # a helper function / method of this module: its own draw sites are in the table (classified through the
+                # generator it receives or reads); the CALL is listed with the worst kind found inside, so that a component
+                # whose only draws go through helpers still has its sites
+                kinds = set()
+                for d in helpers:
+                    kinds |= self.helper_kinds(d)
+                if kinds:
+                    worst = max(kinds, key=self.SEVERITY.index)
+                    self.emit(n, worst, "%s   [draws through module helper `%s`: %s]" % (src(n)[:90], last, ",".join(sorted(kinds))))
+                    self.sites[-1]["kind"] = worst        # (emit's guard rewriting does not apply to a summary)
+                continue
             raise Unclassified("%s:%d: call `%s` looks randomness-related and is not classified" % (self.rel, n.lineno, src(n)[:120]))
 
 
@@ -659,7 +752,7 @@ def extract(repo):
         fs.rng_default_callees = callees
         for s in fs.scan():
             for comp in components_of(rel, s["scope"]):
-                out.append(dict(s, file=rel, component=comp))
+                out.append(dict({k: v for k, v in s.items() if not k.startswith("_")}, file=rel, component=comp))
     out.sort(key=lambda s: (COMPONENTS.index(s["component"]) if s["component"] in COMPONENTS else 99, s["file"], s["line"], s["what"]))
     present = {s["component"] for s in out}
     missing = [c for c in COMPONENTS if c not in present]
@@ -732,6 +825,6 @@ def generate(repo=None, out=None):
 
 
 if __name__ == "__main__":
-    ss = generate(*(sys.argv[1:2]))
+    ss = generate(*sys.argv[1:3])
     for s in ss:
         print("%-13s %-48s %4d %-20s %s" % (s["component"], s["file"], s["line"], s["kind"], s["what"][:110]))
